@@ -219,13 +219,18 @@ def run(world, rep, tier, only=None):
             mism = 1 if lit[1] else 0
             if isinstance(a0, dict) and a0.get("o") == "==" and eg.block_end(bid) in eg.reach(eg.after(rd)):
                 tgt = eg.blocks[bid]["s"][mism]
-                r = eg.reach([eg.node(tgt, 0)], avoid=[eg.block_end(b2) for b2 in depth_tests])
-                rets = [x for x in eg.events("R") if x in r]
-                first = eg.witness_path([eg.node(tgt, 0)], rets) if rets else None
-                if first and first[-1].ev and "EXT2_ET_EXTENT_HEADER_BAD" in T.macros(first[-1].ev.get("x") or {}):
+                # on the mismatch edge the node is not accepted: following constants (`retval = …HEADER_BAD; if (retval)`),
+                # no path reaches the stores that take the node into the path, and every return is non-zero
+                accept = [n for n in eg.events("S") if T.last_field(n.ev["lhs"]) and T.last_field(n.ev["lhs"])[0] == "extent_path"
+                          and T.last_field(n.ev["lhs"])[1] in ("left", "entries", "max_entries") and n in eg.reach(eg.after(rd))]
+                ex_ = absint.Explorer(eg, prog)
+                terms = ex_.run([eg.node(tgt, 0)], on_node=lambda node, env, flags, _a=accept: flags | {"acc"} if node in _a else flags)
+                rets = [(node, env, fl) for (node, env, fl, st) in terms if node.ev and node.ev["e"] == "R"]
+                if rets and not any("acc" in fl for (node, env, fl) in rets) and \
+                        all(absint._nz(ex_.eval(node.ev.get("x"), env)) for (node, env, fl) in rets):
                     ok = True
         rep.ob("C02.g", site(eg, "child node's eh_depth compared with its level#%d" % i), ok,
-               "after the child block is read, `eh_depth != max_depth - level` returns EXT2_ET_EXTENT_HEADER_BAD")
+               "after the child block is read, `eh_depth != max_depth - level` leads to a non-zero return without the node being accepted")
 
 
 def _aborts_after(prog, fn, n):
